@@ -232,6 +232,8 @@ def _init():
 
 
 def run(ctx):
+    from .. import xfeat
+    xfeat.decl_sweep(ctx, "C03")      # assertions inside cross-feature compositions (pv/xfeat.py)
     tasks = []
     if ctx.thorough:
         cfgs = [(2, REC.BN128), (3, REC.BN128), (4, REC.BN128), (3, REC.BLS12_381), (3, REC.CURVE25519), (2, REC.BLS12_381)]
@@ -288,6 +290,9 @@ def run(ctx):
 
 
 def replay(case):
+    if isinstance(case, dict) and case.get("xfeat"):
+        from .. import xfeat
+        return xfeat.decl_replay(case)
     H.bind(case["p"])
     prog = {"expr": _t(case["prog"]["expr"]), "kinds": list(case["prog"]["kinds"])}
     vec = tuple(case["vals"])
